@@ -242,7 +242,10 @@ def check_hexital_tfs(scn):
         if scn.get("htf"):
             extra["timeframe"] = scn["htf"]
         late = {int(i): st for i, st in (scn.get("late") or {}).items()}   # member index -> the step after which it is ADDED (add_indicator)
-        hx = Hexital("tfs", cm.mk_candles(stream[:init]), [EMA(period=2, timeframe=tf) for i, tf in enumerate(scn["tfs"]) if i not in late], **extra)
+        def member(tf):   # object or dict form (a dict member's timeframe must be honoured exactly like an object's)
+            return {"indicator": "EMA", "period": 2, "timeframe": tf} if scn.get("dict_members") else EMA(period=2, timeframe=tf)
+
+        hx = Hexital("tfs", cm.mk_candles(stream[:init]), [member(tf) for i, tf in enumerate(scn["tfs"]) if i not in late], **extra)
         hx.calculate()
         consumed = init
         steps = [init] + list(scn.get("chunks", []))
@@ -292,10 +295,11 @@ def case_hexital_tfs(rng, idx, params):
         scn["fill"] = True
     if params.get("ha"):
         scn["ha"] = True
-        if rng.random() < 0.5:
-            # the Hexital's own timeframe: the common base of the members' timeframes (members are built from the Hexital's
-            # already collapsed candles, so only timeframes its buckets nest in are meaningful) - possibly one a member names too
-            scn["htf"] = f"{unit}{base}"
+    if True:
+        if rng.random() < (0.5 if params.get("ha") else 0.3):
+            # the Hexital's own timeframe: the common base of the members' timeframes - or, since member managers are built from the
+            # candles as given (fix 3f78fc6), ANY timeframe, also one the members' buckets do not nest in
+            scn["htf"] = f"{unit}{base}" if rng.random() < 0.5 else f"{unit}{base * rng.choice([2, 3, 4, 7])}"
     if params.get("life"):
         b = gen.tf_seconds(f"{unit}{base}")
         scn["life"] = b * rng.choice([0, 0, 1, 2, 5, 12, 30]) + rng.choice([0, 0, 1, b // 2])
@@ -305,6 +309,8 @@ def case_hexital_tfs(rng, idx, params):
         if init > 1:
             scn["chunks"] = [init - 1] + list(chunks)
             scn["init"] = 1
+    if rng.random() < 0.4:
+        scn["dict_members"] = True
     if scn.get("life") is None and not scn.get("htf") and len(tfs) >= 2 and rng.random() < 0.35:
         # some members are registered LATER through add_indicator (their manager is then built from what the default manager holds:
         # untrimmed, raw or recoverable - so it must still be the resampling of the whole stream)
